@@ -441,11 +441,13 @@ def c10(rec):
 # ---- C20 (simulation part) ------------------------------------------------------------------
 def c20(rec):
     v, _ = O.termination(rec)
-    if v:
-        return [], _cls(rec)     # hangs are C01's; accounting applies to completed lifecycles
     out = []
     c = O.cause(rec)
     acc = [o["value"] for o in rec.ops if o["op"][0] == "account" and "value" in o]
+    if v and len(acc) < 2:
+        return [], _cls(rec)     # hangs are C01's; accounting applies to completed lifecycles
+    # (a run that hangs only after both accounts were taken - e.g. at interpreter exit - is
+    # still judged on what the two completed lifecycles left behind)
     if len(acc) >= 2:
         a, b = acc[0], acc[-1]
         # comparable iff the repetition had at most as many abrupt deaths as the first run
